@@ -185,6 +185,23 @@ func H_Bytes_Decode() {
 	if c != '[' && c != 'n' {
 		vx.Assert(err != nil && p == nil, "C11/non-array-root-rejected")
 	}
+	if t, ok := parseJSON(s); ok && t.K == JArr {
+		if len(t.Kids) == 0 {
+			// the empty patch, with any surrounding whitespace
+			vx.Assert(err == nil && p != nil, "C11/empty-array-accepted")
+			vx.Assert(err == nil, "C16/decodepatch-accepts-wellformed")
+		} else {
+			allObj := true
+			for _, k := range t.Kids {
+				if k.K != JObj {
+					allObj = false
+				}
+			}
+			if !allObj {
+				vx.Assert(err != nil && p == nil, "C11/non-object-element-rejected")
+			}
+		}
+	}
 	vx.Reach("bytes/decode/wellformed")
 }
 
